@@ -1076,6 +1076,47 @@ fn version_node(builder: &mut GreenNodeBuilder, vc: &VersionConstraint, version:
     builder.finish_node();
 }
 
+/// `[arch !arch …]` as an ARCHITECTURES node, as the parser builds it
+fn architectures_node<'a>(builder: &mut GreenNodeBuilder, architectures: impl Iterator<Item = &'a str>) {
+    builder.start_node(ARCHITECTURES.into());
+    builder.token(L_BRACKET.into(), "[");
+    for (i, arch) in architectures.enumerate() {
+        if i > 0 {
+            builder.token(WHITESPACE.into(), " ");
+        }
+        if let Some(name) = arch.strip_prefix('!') {
+            builder.token(NOT.into(), "!");
+            builder.token(IDENT.into(), name);
+        } else {
+            builder.token(IDENT.into(), arch);
+        }
+    }
+    builder.token(R_BRACKET.into(), "]");
+    builder.finish_node();
+}
+
+/// `<profile !profile …>` as a PROFILES node
+fn profiles_node(builder: &mut GreenNodeBuilder, profile: &[BuildProfile]) {
+    builder.start_node(PROFILES.into());
+    builder.token(L_ANGLE.into(), "<");
+    for (i, profile) in profile.iter().enumerate() {
+        if i > 0 {
+            builder.token(WHITESPACE.into(), " ");
+        }
+        match profile {
+            BuildProfile::Disabled(name) => {
+                builder.token(NOT.into(), "!");
+                builder.token(IDENT.into(), name.as_str());
+            }
+            BuildProfile::Enabled(name) => {
+                builder.token(IDENT.into(), name.as_str());
+            }
+        }
+    }
+    builder.token(R_ANGLE.into(), ">");
+    builder.finish_node();
+}
+
 impl From<Vec<Relation>> for Entry {
     fn from(relations: Vec<Relation>) -> Self {
         let mut builder = GreenNodeBuilder::new();
@@ -1544,51 +1585,50 @@ impl Relation {
     /// assert_eq!(relation.to_string(), "samba [amd64 i386]");
     /// ```
     pub fn set_architectures<'a>(&mut self, architectures: impl Iterator<Item = &'a str>) {
-        let mut builder = GreenNodeBuilder::new();
-        builder.start_node(ARCHITECTURES.into());
-        builder.token(L_BRACKET.into(), "[");
-        for (i, arch) in architectures.enumerate() {
-            if i > 0 {
-                builder.token(WHITESPACE.into(), " ");
-            }
-            builder.token(IDENT.into(), arch);
-        }
-        builder.token(R_BRACKET.into(), "]");
-        builder.finish_node();
-
+        let architectures = architectures.collect::<Vec<_>>();
         let node_architectures = self.0.children().find(|n| n.kind() == ARCHITECTURES);
+        if architectures.is_empty() {
+            // no architecture restriction: "[]" is not valid syntax
+            if let Some(node_architectures) = node_architectures {
+                while let Some(prev) = node_architectures.prev_sibling_or_token() {
+                    if prev.kind() == WHITESPACE || prev.kind() == NEWLINE {
+                        prev.detach();
+                    } else {
+                        break;
+                    }
+                }
+                node_architectures.detach();
+            }
+            return;
+        }
+        let mut builder = GreenNodeBuilder::new();
+        architectures_node(&mut builder, architectures.into_iter());
+        let green = builder.finish();
+
         if let Some(node_architectures) = node_architectures {
-            let new_root = SyntaxNode::new_root_mut(builder.finish());
             self.0.splice_children(
                 node_architectures.index()..node_architectures.index() + 1,
-                vec![new_root.into()],
+                vec![SyntaxNode::new_root_mut(green).into()],
+            );
+        } else if let Some(profiles) = self.0.children().find(|n| n.kind() == PROFILES) {
+            // before the first build profile restriction (and the whitespace in front of it)
+            let idx = profiles.index();
+            self.0.splice_children(
+                idx..idx,
+                detached(vec![
+                    green.into(),
+                    GreenToken::new(WHITESPACE.into(), " ").into(),
+                ]),
             );
         } else {
-            let profiles = self.0.children().find(|n| n.kind() == PROFILES);
-            let idx = if let Some(profiles) = profiles {
-                profiles.index()
-            } else {
-                self.0.children_with_tokens().count()
-            };
-            let new_root = SyntaxNode::new_root(self.0.green().splice_children(
+            let idx = self.0.children_with_tokens().count();
+            self.0.splice_children(
                 idx..idx,
-                vec![
+                detached(vec![
                     GreenToken::new(WHITESPACE.into(), " ").into(),
-                    builder.finish().into(),
-                ],
-            ));
-            if let Some(parent) = self.0.parent() {
-                parent.splice_children(self.0.index()..self.0.index() + 1, vec![new_root.into()]);
-                self.0 = parent
-                    .children_with_tokens()
-                    .nth(self.0.index())
-                    .unwrap()
-                    .clone()
-                    .into_node()
-                    .unwrap();
-            } else {
-                self.0 = new_root;
-            }
+                    green.into(),
+                ]),
+            );
         }
     }
 
@@ -1604,54 +1644,21 @@ impl Relation {
     /// ```
     pub fn add_profile(&mut self, profile: &[BuildProfile]) {
         let mut builder = GreenNodeBuilder::new();
-        builder.start_node(PROFILES.into());
-        builder.token(L_ANGLE.into(), "<");
-        for (i, profile) in profile.iter().enumerate() {
-            if i > 0 {
-                builder.token(WHITESPACE.into(), " ");
-            }
-            match profile {
-                BuildProfile::Disabled(name) => {
-                    builder.token(NOT.into(), "!");
-                    builder.token(IDENT.into(), name.as_str());
-                }
-                BuildProfile::Enabled(name) => {
-                    builder.token(IDENT.into(), name.as_str());
-                }
-            }
-        }
-        builder.token(R_ANGLE.into(), ">");
-        builder.finish_node();
-
-        let node_profiles = self.0.children().find(|n| n.kind() == PROFILES);
-        if let Some(node_profiles) = node_profiles {
-            let new_root = SyntaxNode::new_root_mut(builder.finish());
-            self.0.splice_children(
-                node_profiles.index()..node_profiles.index() + 1,
-                vec![new_root.into()],
-            );
-        } else {
-            let idx = self.0.children_with_tokens().count();
-            let new_root = SyntaxNode::new_root(self.0.green().splice_children(
-                idx..idx,
-                vec![
-                    GreenToken::new(WHITESPACE.into(), " ").into(),
-                    builder.finish().into(),
-                ],
-            ));
-            if let Some(parent) = self.0.parent() {
-                parent.splice_children(self.0.index()..self.0.index() + 1, vec![new_root.into()]);
-                self.0 = parent
-                    .children_with_tokens()
-                    .nth(self.0.index())
-                    .unwrap()
-                    .clone()
-                    .into_node()
-                    .unwrap();
-            } else {
-                self.0 = new_root;
-            }
-        }
+        profiles_node(&mut builder, profile);
+        // after the last restriction list that is already there
+        let idx = self
+            .0
+            .children()
+            .filter(|n| n.kind() == PROFILES)
+            .last()
+            .map_or_else(|| self.0.children_with_tokens().count(), |n| n.index() + 1);
+        self.0.splice_children(
+            idx..idx,
+            detached(vec![
+                GreenToken::new(WHITESPACE.into(), " ").into(),
+                builder.finish().into(),
+            ]),
+        );
     }
 
     /// Build a new relation
